@@ -11,6 +11,8 @@ import Nlmodel.Proofs.Lemmas.SimFnValidate
 import Nlmodel.Proofs.Lemmas.SimHValidate
 import Nlmodel.Proofs.Lemmas.ResolveHeap
 import Nlmodel.Proofs.Lemmas.ResolveFn
+import Nlmodel.Proofs.Lemmas.ParsedFloats
+import Nlmodel.Proofs.Lemmas.Resolve6Top
 namespace Nl
 namespace C01
 
@@ -314,6 +316,71 @@ theorem C01_function_free_eval_text (cc : CharClass) (src : Text) (ast : Block) 
 /-- non-vacuity: a source tree with an array of a float and a string, aliasing, `b[0] = a`, `print`/`lengte`,
     a `zolang` loop with `stop` and `volgende`, prefix operators and `a[1][0] + "y"` is in the fragment -/
 example : SimH.inSourceH SimH.heapSrcEx = true := by decide
+
+/-- FORWARD SIMULATION, stage 6: HEAP VALUES TOGETHER WITH FUNCTION CALLS — the garbage collections that `Return` and
+    `ReturnValue` run are INSIDE the simulation.  The union of stages 4 and 5: top-level function definitions, calls of
+    first-class function values with any number of arguments, parameters and locals in frame slots, recursion, `antwoord`,
+    `als`/`zolang`/`stop`/`volgende`, globals, AND floats, strings, list literals, indexing, index assignment with aliasing, all
+    13 operators on all value kinds, all seven builtins — inside function bodies as well as at top level; arrays holding
+    function values; heap values passed as arguments, returned, stored in globals.  For every fuel the seven statements hold
+    together (`Sim6.PAll6`).  The address map between the store of the semantics (which never frees) and the machine heap
+    SHRINKS at every collection to the addresses whose image survived (`Sim6.restrict`); the GC lemma `Sim6.hinv_gc` re-
+    establishes the cell-wise heap relation for it (a surviving array was marked, so its elements were); and what a caller
+    still holds — its locals and pending operands sit, unchanged, in the part of the stack below the callee, which is a root
+    of every collection in between — is related after the call to what it was related to before (`Sim6.Keep`). -/
+theorem C01_heap_and_calls_simulation (W : Sim6.World) (hW : Sim6.WOK6 W) (f : Nat) : Sim6.PAll6 W f := Sim6.pall6 hW f
+
+/-- the GC lemma itself: a collection with roots that include the constants keeps the simulation's heap invariant for the
+    restricted address map, and a value that is a root (or has no address) stays related to what it was related to -/
+theorem C01_collection_is_transparent {W : Sim6.World} {μ : SimH.AMap} {st : Spec.SState} {m : Mem} {roots : List Value}
+    (hi : Sim6.HInv W μ st m) (hk : GC.HeapKindOK m.heap) (hkr : ∀ v ∈ roots, GC.KindOK m.heap v)
+    (hcv : ∀ v, v ∈ W.s0.cvals.toList → v ∈ roots) :
+    Sim6.HInv W (Sim6.restrict μ (GC.run m roots).heap) st (GC.run m roots) :=
+  Sim6.hinv_gc hi hk hkr hcv
+
+/-- END TO END, stage 6, by validation (`Sim6.inFragment6`, decidable, proved sound): the run halts with a value whose deep
+    view (nested arrays, cycles, strings, floats, function values) is the definitional one, after exactly the definitional
+    output, the result surviving the hand-over at `Halt`; a definitional error is the machine's error after the same
+    output; or the machine stops at its stack/frame limit, which the semantics does not have. -/
+theorem C01_heap_and_calls_program (ast : Block) (r : RBlock) (bc : Bytecode) (hc : compileProgram ast = .ok (r, bc))
+    (hin : Sim6.inFragment6 r = true) (F : Nat) :
+    (∃ n s', ∀ k, runSteps bc.code (n + k) (VM.start {} bc) = .error .index s') ∨
+    match Spec.evalB F r {} with
+    | .val () st' => ∃ mv n s', (∀ k, runSteps bc.code (n + k) (VM.start {} bc) = .value mv s') ∧
+        s'.mem.heap.tree treeDepth [] mv = st'.tree treeDepth [] st'.last ∧ s'.out = st'.out ∧
+        (finishValue mv s').mem.heap.tree treeDepth [] mv = s'.mem.heap.tree treeDepth [] mv
+    | .err er ste => ∃ n s', (∀ k, runSteps bc.code (n + k) (VM.start {} bc) = .error er s') ∧ s'.out = ste.out
+    | .brk _ => False
+    | .cont _ => False
+    | .ret _ _ => False
+    | _ => True :=
+  Sim6.program6 ast r bc hc hin F
+
+/-- THE OBSERVATION, stage 6, NO VALIDATION: for every text whose parsed tree is in the SYNTACTIC fragment `Sim6.S6Top`
+    (decidable `Sim6.src6Top`: everything but nested function literals and `stop`/`volgende` under pending operands — R1 of the
+    resolver by induction, `Sim6.resolve_ztop`), whatever the definitional semantics answers with some fuel is what `eval`
+    answers for every large enough budget — unless the machine stops at its stack/frame limit. -/
+theorem C01_heap_and_calls_eval_text (cc : CharClass) (src : Text) (ast : Block) (r : RBlock) (bc : Bytecode)
+    (hp : parse cc src = .ok ast) (hs : Sim6.src6Top ast = true) (hc : compileProgram ast = .ok (r, bc)) (F : Nat) :
+    (∃ n out, ∀ k, evalText cc (n + k) src = .error .index out) ∨
+    match specText cc F src with
+    | .value t out => ∃ n, ∀ k, evalText cc (n + k) src = .value t out
+    | .error e out => ∃ n, ∀ k, evalText cc (n + k) src = .error e out
+    | .fault _ => False
+    | _ => True :=
+  Sim6.eval_text6_checked cc src ast r bc hp hs hc F
+
+/-- non-vacuity: `functie f(n) { als n < 1 { antwoord [] }; stel a = f(n - 1); [n, a, "x", 1.5] }; print(f(3)); f(2)`
+    (recursion, a returned array nested in a new one, a string, a float, `print`) is in the syntactic fragment -/
+example : Sim6.src6Top Sim6.ex6Ast = true := by decide
+
+/-- the side condition the fragments put on float literals (`SimH.LitF`: sign bit clear, not NaN) holds for EVERY
+    literal of EVERY parsed program: a number token starts with a digit (`ParsedFloats.lex_tokens_ok`), the decimal
+    reader then yields a correctly rounded magnitude at most infinity with the sign bit clear, and the parser
+    copies it into the tree (induction over all seven parser functions) -/
+theorem C01_parsed_float_literals_are_plain (cc : CharClass) (src : Text) (ast : Block) (h : parse cc src = .ok ast) :
+    ast.AllLitF :=
+  ParsedFloats.parse_allLitF cc src ast h
 
 /-! ### consequence for C10: how the compiler implements an expression is unobservable -/
 
